@@ -1,6 +1,6 @@
 """C11: Euler angles - order encoding, slot permutations, 3x3 vs 4x4 copies."""
 import os
-from ..core import Unit, VERIF, REPO, BUILD
+from ..core import Unit, VERIF, REPO, BUILD, Undecided
 from .. import extract
 
 GEN = os.path.join(BUILD, "C11")
@@ -16,6 +16,66 @@ ALIASES = {"order": E + "::order() const", "setOrder": E + "::setOrder(Euler<flo
            "toMatrix33": E + "::toMatrix33() const", "toMatrix44": E + "::toMatrix44() const",
            "extract33": E + "::extract(const Matrix33<float> &)", "extract44": E + "::extract(const Matrix44<float> &)"}
 EXTRACTION = {}
+# ---- RING part: Euler<int>, cos/sin uninterpreted ring-valued functions ----
+HR = os.path.join(VERIF, "harness", "c11_ring.c")
+RDRIVER = '''#include "ImathEuler.h"
+using namespace IMATH_INTERNAL_NAMESPACE;
+void use11r (Euler<int> &e, Matrix33<int> &a, Matrix44<int> &b, Vec3<int> &v)
+{
+    e.setOrder (Euler<int>::XYZ); a = e.toMatrix33 (); b = e.toMatrix44 (); a = a * a; b.setEulerAngles (v);
+}
+'''
+EI = "Euler<int>"
+RALIASES = {"setOrder": EI + "::setOrder(Euler<int>::Order)", "toMatrix33": EI + "::toMatrix33() const", "toMatrix44": EI + "::toMatrix44() const",
+            "mul33": "Matrix33<int>::operator*(const Matrix33<int> &) const", "setEuler44": "Matrix44<int>::setEulerAngles(const Vec3<int> &)"}
+RTYPE_MAP = {"__gnu_cxx::__enable_if<__is_integer<int>::__value,double>::__type": "double"}
+RING_TRIG = [(r"^std::cos\(int\)$", "cxx2c_ring_cosi"), (r"^std::sin\(int\)$", "cxx2c_ring_sini")]
+ORDERS = ["XYZ", "XZY", "YZX", "YXZ", "ZXY", "ZYX", "XZX", "XYX", "YXY", "YZY", "ZYZ", "ZXZ"]
+
+
+def order_table():
+    """the enum values, cut from the real header on every run (must find all 24)"""
+    import re
+    txt = open(os.path.join(REPO, "src/Imath/ImathEuler.h")).read()
+    m = re.search(r"enum\s+IMATH_EXPORT_ENUM\s+Order\s*\{(.*?)Legal\s*=", txt, re.S)
+    if not m:
+        raise Undecided("c11: enum Order not found in ImathEuler.h")
+    vals = dict(re.findall(r"\b([XYZ]{3}r?)\s*=\s*(0x[0-9a-fA-F]+)", m.group(1)))
+    want = ORDERS + [o + "r" for o in ORDERS]
+    if sorted(vals) != sorted(want):
+        raise Undecided("c11: enum Order: expected the 24 orders, found %s" % sorted(vals))
+    return vals
+
+
+def ring_units(tier):
+    ex = extract.run_extraction("c11rx", RDRIVER, sorted(set(RALIASES.values())), outdir=GEN, type_map=RTYPE_MAP, extern_patterns=RING_TRIG)
+    txt = "\n".join("#define F_%s %s" % (a, ex.names[s]) for a, s in RALIASES.items()) + "\n"
+    p = os.path.join(GEN, "c11r_names.h")
+    if not os.path.exists(p) or open(p).read() != txt:
+        open(p, "w").write(txt)
+    vals = order_table()
+    txt = "".join("#define ORD_%s %s\n" % (k, v) for k, v in sorted(vals.items()))
+    p = os.path.join(GEN, "c11r_orders.h")
+    if not os.path.exists(p) or open(p).read() != txt:
+        open(p, "w").write(txt)
+    EXTRACTION["c11rx"] = {"functions": len(ex.order), "differential": {k: ex.diff.get(k) for k in ("tested", "cases")}, "skipped": ex.diff.get("skipped", [])}
+    rp = {"src": HR, "lang": "c", "cxx": [ex.shim_cpp], "includes": [GEN] + ex.includes}
+    fl = ["--unwind", "6", "--no-signed-overflow-check", "--object-bits", "10"]
+    asm = ["RING: polynomial identities over Z/2^32 on the int instantiation (wrap-around); cos / sin uninterpreted ring-valued functions with cos(-a) = cos(a), sin(-a) = -sin(a) assumed; transfer to float by same template (not machine-checked)"]
+    us = []
+    for o in ORDERS:
+        ax = ["XYZ".index(c) for c in o]
+        us.append(Unit("c11.ring.product_" + o, HR, "h_order_product", includes=[GEN], backend="z3som", mode="RING", no_checks=True, timeout=600, replay=rp, cbmc_flags=fl,
+                       defines=["CXX2C_RING_TRIG", "ORD=ORD_" + o, "AX0=%d" % ax[0], "AX1=%d" % ax[1], "AX2=%d" % ax[2], "ROTATING=0"],
+                       functions=[RALIASES["setOrder"], RALIASES["toMatrix33"]], assumptions=asm,
+                       clause="order %s: toMatrix33() == %s" % (o, " x ".join(("R%s(a%d)" % (c, i)) for i, c in enumerate(o)))))
+        us.append(Unit("c11.ring.rotating_" + o + "r", HR, "h_order_rotating", includes=[GEN], backend="z3som", mode="RING", no_checks=True, timeout=600, replay=rp, cbmc_flags=fl,
+                       defines=["CXX2C_RING_TRIG", "ORD=ORD_" + o + "r", "AX0=0", "AX1=1", "AX2=2", "ROTATING=1"],
+                       functions=[RALIASES["setOrder"], RALIASES["toMatrix33"]], assumptions=asm,
+                       clause="order %sr: toMatrix33() on (a0,a1,a2) == the static order with the same axis/parity/repeat bits on (a2,a1,a0)" % o))
+    us.append(Unit("c11.ring.xyz_setEulerAngles", HR, "h_xyz_setEuler", includes=[GEN], backend="z3som", mode="RING", no_checks=True, timeout=600, replay=rp, cbmc_flags=fl,
+                   defines=["CXX2C_RING_TRIG"], functions=[RALIASES["toMatrix44"], RALIASES["setEuler44"]], assumptions=asm, clause="XYZ order agrees with Matrix44::setEulerAngles"))
+    return us
 
 
 def units(tier):
@@ -46,7 +106,7 @@ def units(tier):
     U("rel.toMatrix", "h_rel_toMatrix", clause="toMatrix33() and toMatrix44() hold the same rotation block (two textual copies of the Shoemake formulas), all 24 orders; sin/cos and arithmetic abstract",
       fns=[ALIASES["toMatrix33"], ALIASES["toMatrix44"]], mode="ABS", defines=ABS, timeout=900)
     # rel.extract (extract(Matrix33) vs extract(Matrix44)): two copies of rotate() + a 4x4 product; both back ends exceed 15 min - not claimed
-    return us
+    return us + ring_units(tier)
 
 
 def extra_coverage(units, tier):
@@ -55,7 +115,7 @@ def extra_coverage(units, tier):
 
 NOT_COVERED = [
     "extract(Matrix33) vs extract(Matrix44) agreement: attempted, solver time-out (harness h_rel_extract kept for reference)",
-    "toMatrix33 equals the product of three elementary axis rotations in the order the enum encodes; XYZ order agrees with Matrix44::setEulerAngles: planned RING obligations, not in this revision",
+    "what the NAMES of the rotating (r) orders mean: the property text does not say; see DESIGN section 11 (observation on 10 of the 12 r names vs Shoemake's table)",
     "toQuat vs toMatrix (half angles), extract -> build round trips and gimbal lock (atan2), angleMod / makeNear / nearestRotation ranges (fmod, pi arithmetic), extractEuler* in ImathMatrixAlgo.h",
     "orthonormality / determinant one of the matrices (needs sin^2 + cos^2 = 1)",
 ]
